@@ -129,7 +129,9 @@ def execute(case, ch) -> dict:
             kind, i, o = options[ch.pick(len(options), "sched")]
             v_step = s.version()
             if kind == "start":
-                dto = Dto.Method(lines=[Dto.MethodLine(id="l0", content=f"content of save{i}")], version=v0 + bases[i], last_author="")
+                # what the save carries: its own text / the same text as every other save / the text that is stored already
+                content = {"own": f"content of save{i}", "shared": "the same fix", "initial": "initial"}[case.get("texts", "own")]
+                dto = Dto.Method(lines=[Dto.MethodLine(id="l0", content=content)], version=v0 + bases[i], last_author="")
                 tasks[i] = s.loop.spawn(pu.save_method(user_name=f"U{i}", user_id=f"u{i}", user_roles=set(), unit_id=ENGINE,
                                                        method_dto=dto, agg=s.agg), name=f"save{i}")
                 started_at[i] = len(steps)
@@ -288,7 +290,14 @@ def cases(quick: bool):
                 out.append(dict(v0=v0, bases=list(bases), outcomes=list(OUTCOMES)))
         for bases in ((0, 0, 0, 0), (0, 0, 0, 1), (0, 0, 1, 1), (0, 1, 2, 3)):       # four concurrent saves, two outcomes
             out.append(dict(v0=0, bases=list(bases), outcomes=["ok", "engine_error"]))
-    out.sort(key=lambda c: (len(c["bases"]), sum(c["bases"]), c["bases"], c["v0"]))     # simplest first
+    # saves that carry the same text (two users typing the same fix, a retried request) or the text that is stored already
+    same = []
+    for c in out:
+        if len(c["bases"]) <= (2 if quick else 3) or c["bases"] in ([0, 0, 0], [0, 0, 1]):
+            for texts in ("shared", "initial"):
+                same.append(dict(c, texts=texts))
+    out += same
+    out.sort(key=lambda c: (len(c["bases"]), sum(c["bases"]), c["bases"], c["v0"], c.get("texts", "own")))     # simplest first
     return out
 
 
